@@ -96,7 +96,7 @@ func ruleDecimalExact(pkgs ...string) func(*Ctx) {
 					fmt.Sprintf("lossy decimal operation %s on the verdict/aggregation path (%s): sums and comparisons must be exact", dc.name, exprStr(c.P.Fset, dc.call)))
 			}
 		}
-		c.census("D-EXACT", "decimal operations in "+strings.Join(pkgs, ","), n, 6)
+		c.census("D-EXACT", "decimal operations in "+strings.Join(pkgs, ","), n, 1)
 		// also: no float arithmetic on quantities: any conversion of a decimal to float is a lossy op above;
 		// additionally flag float64/float32-typed struct fields in ast (quantities must be decimal.Decimal)
 		if astPk := c.P.ByRel["internal/ast"]; astPk != nil {
